@@ -52,7 +52,7 @@ def limbs(w):
 
 
 def record(t, accel, n, payload, input_words, rejected=False, crashed=False):
-    ev = {"t": t, "accel": accel, "n": n, "rejected": rejected, "crashed": crashed, "total_bytes": 0,
+    ev = {"t": t, "src": "api", "accel": accel, "n": n, "rejected": rejected, "crashed": crashed, "total_bytes": 0,
           "bytes": [], "mode": "none", "input": [], "tail_match": False}
     if payload is None:
         return ev
@@ -91,6 +91,61 @@ def api_case(t, accel, n, wseed, big=None):
     if not isinstance(payload, (bytes, bytearray)):
         return record(t, accel, n, None, None, crashed=True)
     return record(t, accel, n, bytes(payload), w)
+
+
+HW_LIMIT_BYTES = 1 << 24
+
+
+def _dma_stream(n, acc):
+    """n DMA operations whose registers all differ from the previous operation's (no elision): constant words per op"""
+    from ethosu.vela import api
+    ops = []
+    for i in range(n):
+        k = i & 1
+        ops.append(api.NpuDmaOperation(api.NpuAddressRange(0, 1024 + 64 * k, 32 + 16 * k),
+                                       api.NpuAddressRange(1, 2048 + 64 * k, 32 + 16 * k)))
+    return api.npu_generate_register_command_stream(ops, acc)
+
+
+def gen_limit_cases(t0, accel="ethos-u55-128"):
+    """'streams beyond the hardware limit are rejected': the 16 MiB limit is enforced where the stream is generated.  The stream
+    length is linear in the number of DMA operations (calibrated on short lists); the largest list below the limit must be
+    generated (and then framed), the next one must be rejected with a VelaError."""
+    ensure_repo_on_path()
+    from ethosu.vela.api import NpuAccelerator, npu_create_driver_payload
+    from ethosu.vela.errors import VelaError
+    acc = {a.name.lower().replace("_", "-"): a for a in NpuAccelerator}[accel]
+    l1, l2, l3 = (len(_dma_stream(n, acc)) for n in (10, 20, 40))
+    per = (l2 - l1) // 10
+    base = l1 - 10 * per
+    if per <= 0 or l3 != base + 40 * per or (l2 - l1) % 10:
+        raise MachineryError("C17 hardware-limit driver: stream length is not linear in the number of DMA operations (%d, %d, %d)" % (l1, l2, l3))
+    n_ok = (HW_LIMIT_BYTES // 4 - 1 - base) // per            # largest n with 4 * (base + per * n) < 16 MiB
+    out = []
+    for k, n in enumerate((n_ok, n_ok + 1 + (0 if 4 * (base + per * (n_ok + 1)) >= HW_LIMIT_BYTES else 1))):
+        words = base + per * n
+        ev = {"t": t0 + k, "src": "gen", "accel": accel, "n": words, "rejected": False, "crashed": False, "total_bytes": 0,
+              "bytes": [], "mode": "none", "input": [], "tail_match": False, "framed_len": -1}
+        try:
+            w = _dma_stream(n, acc)
+            if len(w) != words:
+                raise MachineryError("C17 hardware-limit driver: predicted %d words, generator returned %d" % (words, len(w)))
+            try:
+                payload = npu_create_driver_payload(w, acc)
+                ev["total_bytes"] = len(payload)
+                ev["framed_len"] = len(payload) // 4 - words       # header words in front of the body
+                ev["tail_match"] = hashlib.sha256(bytes(payload[len(payload) - 4 * words:])).digest() == hashlib.sha256(le_image(w)).digest()
+            except VelaError:
+                ev["framed_len"] = -2
+            del w
+        except VelaError:
+            ev["rejected"] = True
+        except MachineryError:
+            raise
+        except Exception:
+            ev["crashed"] = True
+        out.append((ev, {"kind": "gen", "accel": accel, "dma_ops": n, "n": words}))
+    return out
 
 
 def lattice_from_tlc(res):
@@ -292,6 +347,14 @@ def main(tier, only=None):
                         "header_bytes": bytes(ev["bytes"][:48]).hex(), "mode": ev["mode"],
                         "tail_match": ev["tail_match"] if ev["mode"] == "digest" else None})
     big = None
+    # ---- the hardware limit of 16 MiB, enforced by the generator
+    for ev, m in gen_limit_cases(len(events), ACCELS[sd % 6]):
+        events.append(ev)
+        meta[ev["t"]] = m
+        run.evaluated()
+        run.nontrivial(("gen", m["accel"], ev["rejected"]))
+        run.sample({"source": "generator at the 16 MiB limit", "accel": m["accel"], "dma_ops": m["dma_ops"], "words": ev["n"],
+                    "rejected": ev["rejected"]})
     # ---- compiled models
     nmodels = 18 if tier == "quick" else 400
     mev, mmeta = model_records(run, nmodels, sd, len(events))
@@ -305,7 +368,12 @@ def main(tier, only=None):
         m = meta[t]
         if name == "Harness":
             raise MachineryError("record %d inconsistent (full mode without all bytes)" % t)
-        if m["kind"] == "api":
+        if m["kind"] == "gen":
+            key = "%s|generator %s" % (name, m["accel"])
+            what = "%s: npu_generate_register_command_stream(%d DMA operations = %d words = %d bytes, %s) -> %s" % (
+                name, m["dma_ops"], m["n"], 4 * m["n"], m["accel"], "rejected" if events[t]["rejected"] else
+                "crashed" if events[t]["crashed"] else "accepted (payload of %d bytes)" % events[t]["total_bytes"])
+        elif m["kind"] == "api":
             key = "%s|api %s %s" % (name, m["accel"], len_class(m["n"]))
             what = "%s: npu_create_driver_payload(%d words, %s) -> %s" % (
                 name, m["n"], m["accel"], "rejected" if events[t]["rejected"] else
